@@ -219,3 +219,85 @@ def concat_obligations(fnode):
         rm = [t for t, l in systems if (" rm " in " " + t + " " or t.strip().startswith("rm")) and "cat" not in t and key in t]
         out.append(("per-rank files '%s_*' are removed after the join" % key, bool(rm), line))
     return out
+
+
+# ------------------------------------------------------------ column layout of the per-rank tables (writers) and of their readers
+def table_writer_contract(head, matrix_name="params", out_name="out_arr", which=0):
+    """`out_arr = np.transpose(np.vstack([<head arrays>] + [params[:,i] for i in range(...)]))`: one row per function of this rank, the head arrays as the
+    first columns in the given order, then the columns of the parameter table."""
+    NPR, K = z3.Int("NP"), z3.Int("K")
+    H = len(head)
+
+    def region(fnode):
+        hits = [s for s in fnode.body if isinstance(s, ast.Assign) and len(s.targets) == 1 and getattr(s.targets[0], "id", None) == out_name]
+        return [hits[which]] if len(hits) > which else None
+
+    def arr(name):
+        def mk(eng, st):
+            v = eng.fresh(T.arr(T.float), name, st)
+            st.heap[v.addr].len = NPR
+            return v
+        return mk
+
+    def mk_m(eng, st):
+        v = eng.fresh(T.arr2(T.float), matrix_name, st)
+        st.heap[v.addr].rows, st.heap[v.addr].cols = NPR, K
+        return v
+
+    def setup(eng, st, args):
+        st.env["max_param"] = VInt(K)
+
+    def ensures(S, a, res):
+        O = S.st.heap[S.var(out_name).addr]
+        PM = S.st.heap[a[matrix_name].addr]
+        r, c = z3.Int(fresh_name("r!sk")), z3.Int(fresh_name("c!sk"))
+        inr = z3.And(0 <= r, r < NPR)
+        out = [("one row per function of this rank, %d + K columns" % H, z3.And(O.rows == NPR, O.cols == K + H))]
+        for k_, nm in enumerate(head):
+            out.append(("column %d is %s" % (k_, nm), z3.Implies(inr, fsame(as_float(O.get(r, z3.IntVal(k_))), as_float(S.seq(a[nm]).get(r))))))
+        out.append(("columns %d.. are the columns of %s" % (H, matrix_name), z3.Implies(z3.And(inr, 0 <= c, c < K), fsame(as_float(O.get(r, H + c)), as_float(PM.get(r, c))))))
+        return out
+
+    params = {nm: arr(nm) for nm in head}
+    params[matrix_name] = mk_m
+    c = Contract("main", params, requires=lambda S, a: [("sizes", z3.And(NPR >= 0, K >= 0))], ensures=ensures, setup=setup, region=region, raises=lambda S, a, e: z3.BoolVal(False))
+    c.region_name = "layout of %s: %s | %s columns" % (out_name, " | ".join(head), matrix_name)
+    return c
+
+
+def combine_reader_contract():
+    """combine_DL.main reads codelen_matches_comp<n>.dat as  -logL | codelen | unique index | parameter columns  (the layout match.main writes)."""
+    NR, NC = z3.Int("rows"), z3.Int("cols")
+    FILE = z3.Function("codelen_matches_table", z3.IntSort(), z3.IntSort(), z3.RealSort())
+
+    def region(fnode):
+        start = end = None
+        for k, s in enumerate(fnode.body):
+            if start is None and _assigns(s, "data"):
+                start = k
+            if start is not None and _assigns(s, "params"):
+                end = k
+                break
+        return fnode.body[start:end + 1] if start is not None and end is not None else None
+
+    def setup(eng, st, args):
+        from pyvc.values import VLabel, Label
+        eng.models["np.genfromtxt"] = lambda e, s, a, k, node: s.alloc(H2D(NR, NC, lambda r, c: VFloat(FILE(r, c)), etype=T.real))
+        st.env["likelihood"] = st.alloc(HObj("Likelihood", {"out_dir": VLabel(z3.Const("out_dir", Label))}))
+        st.env["comp"] = VInt(z3.Int("comp"))
+        st.assume(z3.And(NR >= 2, NC >= 3))
+
+    def ensures(S, a, res):
+        st = S.st
+        r, c = z3.Int(fresh_name("r!sk")), z3.Int(fresh_name("c!sk"))
+        inr = z3.And(0 <= r, r < NR)
+        PM = st.heap[S.var("params").addr]
+        g = lambda nm: as_float(S.seq(S.var(nm)).get(r)).val
+        return [("-logL = column 0, codelen = column 1, unique index = column 2, parameters = the remaining columns",
+                 z3.And(PM.rows == NR, PM.cols == NC - 3,
+                        z3.Implies(inr, z3.And(g("negloglike") == FILE(r, z3.IntVal(0)), g("codelen") == FILE(r, z3.IntVal(1)), g("index") == FILE(r, z3.IntVal(2)),
+                                               z3.Implies(z3.And(0 <= c, c < NC - 3), as_float(PM.get(r, c)).val == FILE(r, 3 + c))))))]
+
+    c = Contract("main", {}, ensures=ensures, setup=setup, region=region, raises=lambda S, a, e: z3.BoolVal(False))
+    c.region_name = "reader of the match table"
+    return c
